@@ -13,6 +13,7 @@ namespace {
 
 uint64_t g_hash = 1469598103934665603ull;
 unsigned g_step = 0;
+bool g_rerequest = false;   // guards re-request the very destination under evaluation (with another payload where there is one)
 unsigned long g_calls = 0;
 void mixin(unsigned v) { g_hash ^= v; g_hash *= 1099511628211ull; ++g_calls; }
 
@@ -37,6 +38,15 @@ template <> struct Req<true> {
 	template <typename C> static void change(C& c, ffsm2::StateID d, int v) { if (v & 1) c.changeWith(d, Pay{v}); else c.changeTo(d); }
 };
 
+template <bool P> struct PayOf { template <typename T> static unsigned of(const T&) { return 7u; } };
+template <> struct PayOf<true> { template <typename T> static unsigned of(const T& t) { return t.payload() ? static_cast<unsigned>(t.payload()->a) + 100u : 9u; } };
+template <bool P> struct ExtReq {
+	template <typename M_> static void change(M_& m, ffsm2::StateID d, int) { m.changeTo(d); }
+};
+template <> struct ExtReq<true> {
+	template <typename M_> static void change(M_& m, ffsm2::StateID d, int v) { m.changeWith(d, Pay{v}); }
+};
+
 template <typename TConfig, bool P>
 struct Scenario {
 	using M = ffsm2::MachineT<TConfig>;
@@ -49,8 +59,9 @@ struct Scenario {
 
 	template <int I> struct Base : FSM::State {
 		using PlanControl = typename FSM::State::PlanControl;
-		void entryGuard(GuardControl& c) { observe(c, 100 + I); mixin(c.pendingTransition().destination); if ((g_step + I) % 5 == 0) c.cancelPendingTransition(); else if ((g_step + I) % 7 == 0) Req<P>::change(c, static_cast<ffsm2::StateID>((I + 2) % 3), static_cast<int>(g_step)); }
-		void enter(PlanControl& c) { observe(c, 110 + I); mixin(c.currentTransition().destination); }
+		void entryGuard(GuardControl& c) { observe(c, 100 + I); mixin(c.pendingTransition().destination);
+			if (g_rerequest) { g_rerequest = false; Req<P>::change(c, static_cast<ffsm2::StateID>(I), static_cast<int>(g_step) | 1); return; } if ((g_step + I) % 5 == 0) c.cancelPendingTransition(); else if ((g_step + I) % 7 == 0) Req<P>::change(c, static_cast<ffsm2::StateID>((I + 2) % 3), static_cast<int>(g_step)); }
+		void enter(PlanControl& c) { observe(c, 110 + I); mixin(c.currentTransition().destination); mixin(PayOf<P>::of(c.currentTransition())); }
 		void reenter(PlanControl& c) { observe(c, 120 + I); }
 		void preUpdate(FullControl& c) { observe(c, 130 + I); if (g_step % 11 == 3) Req<P>::change(c, static_cast<ffsm2::StateID>((I + 1) % 3), static_cast<int>(g_step)); }
 		void update(FullControl& c) { observe(c, 140 + I); if (g_step % 3 == static_cast<unsigned>(I)) Req<P>::change(c, static_cast<ffsm2::StateID>((I + 1) % 3), static_cast<int>(g_step)); }
